@@ -34,7 +34,7 @@
 EXTENDS Redaction
 
 CONSTANTS Versions,     \* room versions enumerated
-          Family,       \* "ops" | "num" | "sib" | "tamper"
+          Family,       \* "ops" | "num" | "len" | "sib" | "tamper"
           ShapeIds,     \* event shapes (type x state key x content) enumerated
           VariantIds,   \* prev/auth/depth/unsigned variants enumerated
           MaxOps,       \* ops: length of the behaviours
@@ -143,7 +143,14 @@ Variant(w) ==
       [] w = 5 -> [prev |-> "pn", auth |-> "an", depth |-> "d0", unsigned |-> "u0", ts |-> "t0"]
       \* multiplicity: the same event referenced twice in prev_events and in auth_events
       [] w = 6 -> [prev |-> "pd", auth |-> "ad", depth |-> "d3", unsigned |-> "none", ts |-> "t1"]
-AllVariants == 1..6
+      \* domainless room versions: the create event listed explicitly in auth_events (as servers with a partial
+      \* implementation do) - last, in the middle, first and last.  "Every other event reports the create event
+      \* as its first auth event": the implied reference comes first, what the event lists follows unchanged.
+      [] w = 7 -> [prev |-> "p1", auth |-> "acl", depth |-> "d2", unsigned |-> "none", ts |-> "t1"]   \* [a1, create]
+      [] w = 8 -> [prev |-> "p1", auth |-> "acm", depth |-> "d2", unsigned |-> "none", ts |-> "t1"]   \* [a1, create, a2]
+      [] w = 9 -> [prev |-> "p1", auth |-> "acx", depth |-> "d2", unsigned |-> "none", ts |-> "t1"]   \* [create, a1, create]
+AllVariants == 1..9
+CreateCiting == {7, 8, 9}
 
 \* --- numbers in the content (family num) --------------------------------------------------------------
 \* Room versions 6+ ("Canonical JSON" of room version 6): an event is canonical JSON: every number is an integer
@@ -159,11 +166,21 @@ NumOf(e) == IF "zz_num" \in DOMAIN e.con THEN e.con["zz_num"] ELSE "none"
 \* what a receiving server of the room version accepts as an event at all
 Acceptable(v, e) == ~EnforcedCanonJSON(v) \/ NumOf(e) \notin NonCanonicalNums
 \* Build refuses the proto-events that cannot become an event
-BuildRefuses(v, p) == EnforcedCanonJSON(v) /\ p.num \in NonCanonicalNums
+\* --- lengths at the limit (family len) ------------------------------------------------------------------
+\* "The length of type / state_key / sender must not exceed 255 bytes" (and not 255 code points either).  One
+\* field of the proto-event is stretched: b255 = exactly 255 bytes of ASCII (an event: Build must hand it out and
+\* it passes its own field checks), cp255 = exactly 255 code points in more than 255 bytes, b256 = 256 bytes of
+\* ASCII (not events: Build reports the field check's error; for cp255 that error is marked persistable).
+FineLims == {"sk-b255", "type-b255", "sender-b255"}
+OverLims == {"sk-cp255", "sk-b256", "type-cp255", "type-b256", "sender-b256"}
+LimKinds(v) == IF Family = "len" THEN (FineLims \cup OverLims) \ (IF PseudoIDs(v) THEN {"sender-b255", "sender-b256"} ELSE {})
+               ELSE {"none"}
+BuildRefuses(v, p) == (EnforcedCanonJSON(v) /\ p.num \in NonCanonicalNums) \/ p.lim \in OverLims
 
-ProtoOf(i, w, n) ==
+ProtoOf(i, w, n, lm) ==
     LET s == Shape(i)  x == Variant(w) IN
-    [type |-> s.type, sk |-> s.sk, redacts |-> s.redacts, tpi |-> s.tpi, num |-> n,
+    [type |-> s.type, redacts |-> s.redacts, tpi |-> s.tpi, num |-> n, lim |-> lm,
+     sk |-> IF lm \in {"sk-b255", "sk-cp255", "sk-b256"} THEN "long" ELSE s.sk,
      con |-> IF n = "none" THEN s.con ELSE [k \in DOMAIN s.con \cup {"zz_num"} |-> IF k = "zz_num" THEN n ELSE s.con[k]],
      prev |-> x.prev, auth |-> x.auth, depth |-> x.depth, unsigned |-> x.unsigned,
      room |-> "r1", sender |-> "alice", ts |-> x.ts, origin |-> "hs1", sigkey |-> "k1"]
@@ -225,8 +242,10 @@ Log(op, arg, e2, r2) ==
 NoOut == [kind |-> "none"]
 
 Init ==
-    /\ \E v \in Versions, w \in VariantIds, n \in NumKinds : \E i \in ShapesOf(v) :
-          LET p == ProtoOf(i, w, n) IN
+    /\ \E v \in Versions, w \in VariantIds, n \in NumKinds : \E i \in ShapesOf(v) : \E lm \in LimKinds(v) :
+          LET p == ProtoOf(i, w, n, lm) IN
+          \* the create event cited explicitly: where there is a room ID to derive it from
+          /\ (w \in CreateCiting => DomainlessRoomIDs(v) /\ ~Roomless(v, p))
           /\ ver = v
           /\ proto = p
           /\ built = BuildEvent(v, p, "E1")
@@ -238,7 +257,7 @@ Init ==
     /\ wire = NoEvent
     /\ out = NoOut
     /\ phase = IF BuildRefuses(ver, proto) THEN "refused"       \* no event: nothing else can happen
-              ELSE IF Family \in {"ops", "num"} THEN "ops" ELSE "pre"
+              ELSE IF Family \in {"ops", "num", "len"} THEN "ops" ELSE "pre"
 
 \* --- operations (each is one public call on the PDU) -----------------------------------------------------------
 OpNames == {"RU", "RT", "RH", "SU1", "SU2", "SF", "AS1", "AS2", "RD"}
@@ -429,8 +448,8 @@ TamperNext ==
         /\ Tamper(T, hm)
 
 Next ==
-    \/ (Family \in {"ops", "num"} /\ OpsNext)
-    \/ (Family \notin {"ops", "num"} /\ Pre)
+    \/ (Family \in {"ops", "num", "len"} /\ OpsNext)
+    \/ (Family \notin {"ops", "num", "len"} /\ Pre)
     \/ (Family = "sib" /\ \E f \in SibFields : Sibling(f))
     \/ (Family = "tamper" /\ TamperNext)
     \/ (Family = "tamper" /\ ParseTampered)
@@ -455,9 +474,9 @@ PRoundTrip ==
 \* C03: Build either refuses or hands out an event every receiving server accepts (and for which every clause
 \* above holds); it refuses nothing that can be an event
 PBuildOrRefuse ==
-    /\ (phase # "refused" => /\ Acceptable(ver, built)
+    /\ (phase # "refused" => /\ Acceptable(ver, built) /\ proto.lim \notin OverLims
                              /\ (ParseUntrusted(ver, built).red = FALSE))
-    /\ (phase = "refused" => ~Acceptable(ver, built))
+    /\ (phase = "refused" => ~Acceptable(ver, built) \/ proto.lim \in OverLims)
 \* C03: redaction keeps identity and signatures
 PRedactKeeps ==
     Family # "tamper" => /\ Id(ver, ev) = Id(ver, built)
